@@ -345,6 +345,13 @@ pub fn analyse(
         Update(u64, &'a UpdateOp, crate::outstation::database::UpdateInfo),
         Cleared(u64),
     }
+    // when the outstation released each event after its confirmation (virtual ms)
+    let mut cleared_at: BTreeMap<u64, u64> = BTreeMap::new();
+    for (t, _, cb) in &run.out_log {
+        if let crate::verif::nodes::outstation::Cb::EventCleared(id) = cb {
+            cleared_at.entry(*id).or_insert(*t);
+        }
+    }
     let mut evs: Vec<(u64, E)> = run
         .updates
         .iter()
@@ -433,6 +440,28 @@ pub fn analyse(
                             ),
                         ));
                     }
+                    // "nothing ... resurrected": an event the outstation released after its confirmation is not reported again. The
+                    // delivery precedes the confirmation it triggers, so one that comes a second and more after the release of every
+                    // event it could be is a second report
+                    if found {
+                        let alive = ledger.events.values().any(|e| {
+                            e.ptype == m.ptype
+                                && e.index == m.index
+                                && e.created_ms <= *t
+                                && same(m.ptype, m, e.value, &e.bytes, e.flags, Some(e.time), true)
+                                && cleared_at.get(&e.id).map(|c| *c + 1000 >= *t).unwrap_or(true)
+                        });
+                        if !alive {
+                            violation.get_or_insert(Violation::new(
+                                "C02/event-resurrected",
+                                format!("{:?}", m.ptype),
+                                format!(
+                                    "{} ms: the master's handler received the event {:?}[{}] value {} flags {:#x} time {:?} ({}), but every such event had been confirmed and released by the outstation more than a second earlier",
+                                    t, m.ptype, m.index, m.value, m.flags, m.time, m.variation
+                                ),
+                            ));
+                        }
+                    }
                     delivered_events.push((*t, m.clone()));
                     delivered_event_pos.push(seq_no);
                 } else {
@@ -446,7 +475,7 @@ pub fn analyse(
                         // held during [since, until]: overlaps [from, t]?
                         if *since <= *t
                             && until >= from
-                            && same(m.ptype, m, v.value, &v.bytes, v.flags, None, false)
+                            && same(m.ptype, m, v.value, &v.bytes, v.flags, v.time, true)
                         {
                             ok = true;
                             break;
@@ -454,7 +483,7 @@ pub fn analyse(
                     }
                     if !ok {
                         let ever = hist.iter().any(|(_, v)| {
-                            same(m.ptype, m, v.value, &v.bytes, v.flags, None, false)
+                            same(m.ptype, m, v.value, &v.bytes, v.flags, v.time, true)
                         });
                         violation.get_or_insert(Violation::new(
                             if ever { "C02/stale-static-value" } else { "C02/static-value-never-held" },
@@ -609,7 +638,7 @@ pub fn analyse(
             for (key, v) in &ledger.mirror {
                 if silent_final.contains(key) {
                     match last_static.get(key) {
-                        Some((_, m)) if same(key.0, m, v.value, &v.bytes, v.flags, None, false) => {}
+                        Some((_, m)) if same(key.0, m, v.value, &v.bytes, v.flags, v.time, true) => {}
                         other => {
                             violation.get_or_insert(Violation::new(
                                 "C02/master-picture-differs-at-the-end",
@@ -662,7 +691,7 @@ pub fn analyse(
                     (None, None) => None,
                 };
                 if let Some((t, m)) = last {
-                    if !same(key.0, m, v.value, &v.bytes, v.flags, None, false) {
+                    if !same(key.0, m, v.value, &v.bytes, v.flags, v.time, true) {
                         violation.get_or_insert(Violation::new(
                             "C02/master-picture-differs-at-the-end",
                             format!("unsolicited {:?}", key.0),
@@ -694,7 +723,7 @@ pub fn analyse(
                     ));
                 }
                 Some((t, m)) => {
-                    if !same(key.0, m, v.value, &v.bytes, v.flags, None, false) {
+                    if !same(key.0, m, v.value, &v.bytes, v.flags, v.time, true) {
                         violation.get_or_insert(Violation::new(
                             "C02/master-picture-differs-at-the-end",
                             format!("{:?}", key.0),
